@@ -155,3 +155,10 @@ PROPS["C08"] = {
         {"name": "c08-pipeline", "pkg": ROOT, "run": "TestVerifC08", "instr": C08_INSTR, "timeout": {"quick": 900, "thorough": 3400}},
     ],
 }
+C05B_INSTR = ["group_context.go|sync|handleGroupMetadataEvent"]
+PROPS["C05"]["units"].append(
+    {"name": "c05b-completeness", "pkg": ROOT, "run": "TestVerifC05B", "instr": C05B_INSTR, "timeout": {"quick": 900, "thorough": 3000}})
+PROPS["C02"]["units"].append(
+    {"name": "c02-store-retry", "pkg": ROOT, "run": "TestVerifC08", "instr": C08_INSTR, "timeout": {"quick": 900, "thorough": 3400}})
+PROPS["C05"]["units"].append(
+    {"name": "c05-filter", "pkg": ROOT, "run": "TestVerifC05Filter", "timeout": {"quick": 600, "thorough": 1200}})
